@@ -134,6 +134,7 @@ impl Literal {
         let top_level_defs = TopLevelTypes {
             struct_names,
             enum_names,
+            const_types: checked.const_defs.iter().map(|(n, c)| (n, &c.ty)).collect(),
         };
         let mut env = Env::new();
         let mut fns = TypedFns::new();
